@@ -1,14 +1,14 @@
 package main
 
 import (
-	"runtime"
 	"bytes"
 	"context"
-	"math/rand"
 	"crypto/ed25519"
 	"crypto/sha1"
 	"fmt"
+	"math/rand"
 	"net"
+	"runtime"
 	"strings"
 	"sync"
 	"sync/atomic"
